@@ -3173,9 +3173,21 @@ fn build_missing_cases_autofix(
         return vec![];
     }
 
-    // The closing `}` of the match is on its own line. Insert at the
-    // start of that line, leaving the existing indent and `}`
-    // untouched.
+    // The new cases are whole lines inserted before the line of the
+    // closing `}`. That is only a clean insertion if the `}` is on a
+    // line of its own, i.e. the last case ends on an earlier line.
+    if let Some((_, last_block)) = cases.last() {
+        let mut last_case_end_line = last_block.close_brace.end_line_number;
+        if let Some(last_expr) = last_block.exprs.last() {
+            last_case_end_line = last_case_end_line.max(last_expr.position.end_line_number);
+        }
+        if last_case_end_line >= match_pos.end_line_number {
+            return vec![];
+        }
+    }
+
+    // Insert at the start of that line, leaving the existing indent
+    // and `}` untouched.
     if match_pos.end_offset < match_pos.end_column {
         return vec![];
     }
